@@ -81,7 +81,7 @@ fn check_pair(a: &[i64], b: &[i64], what: &str, rep: &mut Report) {
 }
 
 pub fn products(ctx: &Ctx, rep: &mut Report) {
-    let nrand = ctx.sz(2500, 60_000);
+    let nrand = ctx.sz(2500, 250_000);
     let r = par_for(11, ncpu(), |k, rep| {
         let n = 1usize << k;
         let mut rng = rng_for(ctx.seed, &format!("c11-{}", n));
